@@ -530,6 +530,7 @@ func (in *Interp) assign(s *gen.Assign, e *env) {
 		if err != nil {
 			in.throwErr(err)
 		}
+		nv = in.sized(nv)
 		in.store(s.Targets[0], nv, e)
 		return
 	}
@@ -685,7 +686,7 @@ func (in *Interp) eval(x gen.Expr, e *env) ugo.Object {
 		if err != nil {
 			in.throwErr(err)
 		}
-		return v
+		return in.sized(v)
 	case *gen.Cond:
 		if !in.eval(x.C, e).IsFalsy() {
 			return in.eval(x.A, e)
@@ -901,7 +902,30 @@ func (in *Interp) invoke(callee ugo.Object, args []ugo.Object, spread bool) ugo.
 	if err != nil {
 		in.throwErr(err)
 	}
-	return ret
+	return in.sized(ret)
+}
+
+// sized gives up (ErrBudget, an inconclusive run - never a verdict) when a value grows beyond anything
+// a generated program needs: a statement such as `s += s` repeated in a loop doubles its operand every
+// time and would exhaust the memory of the test process, in the model and in the VM alike. The model
+// runs first, so such programs never reach the VM.
+func (in *Interp) sized(v ugo.Object) ugo.Object {
+	const maxLen = 1 << 20
+	switch x := v.(type) {
+	case ugo.String:
+		if len(x) > maxLen {
+			panic(budgetSig{})
+		}
+	case ugo.Bytes:
+		if len(x) > maxLen {
+			panic(budgetSig{})
+		}
+	case ugo.Array:
+		if len(x) > maxLen/8 {
+			panic(budgetSig{})
+		}
+	}
+	return v
 }
 
 func (in *Interp) importModule(name string) ugo.Object {
